@@ -506,7 +506,7 @@ struct Value {
         // Bech32(m) decoding
         int version = bech[0]; // The first 5 bit symbol is the witness version (0-16)
         // data = r.second;
-        printf("(bech32%s HRP = %s)\n", result.encoding == bech32::Encoding::BECH32M ? "m" : "", result.hrp.c_str());
+        fprintf(stderr, "(bech32%s HRP = %s)\n", result.encoding == bech32::Encoding::BECH32M ? "m" : "", result.hrp.c_str());
         type = T_DATA;
         data.clear();
         // The rest of the symbols are converted witness program bytes.
